@@ -192,7 +192,7 @@ func (p *Program) parseEvents(fn *types.Func, T *types.Named, tt *tokenTable) []
 				}
 			}
 			if ft := p.Info.TypeOf(sel); ft != nil {
-				if types.Identical(ft, tt.Type) {
+				if types.Identical(ft, tt.Type) && cls != "CONST" {
 					cls = "OP"
 				}
 			}
@@ -383,6 +383,16 @@ func (p *Program) printEvents(str *types.Func) []slotEvent {
 			return
 		}
 		switch x := e.(type) {
+		case *ast.CompositeLit:
+			// pieces collected in a []string and joined later
+			if st, ok := p.Info.TypeOf(x).Underlying().(*types.Slice); ok {
+				if b, ok := st.Elem().Underlying().(*types.Basic); ok && b.Info()&types.IsString != 0 {
+					for _, el := range x.Elts {
+						emit(el)
+					}
+					return
+				}
+			}
 		case *ast.BinaryExpr:
 			if x.Op == token.ADD {
 				emit(x.X)
@@ -394,6 +404,14 @@ func (p *Program) printEvents(str *types.Func) []slotEvent {
 			name := ""
 			if callee != nil {
 				name = callee.Name()
+			}
+			if id := identOf(x.Fun); id != nil && id.Name == "append" && len(x.Args) >= 1 {
+				if _, isBuiltin := p.Info.Uses[id].(*types.Builtin); isBuiltin {
+					for _, a := range x.Args[1:] {
+						emit(a)
+					}
+					return
+				}
 			}
 			switch {
 			case name == "Sprintf" || name == "Fprintf":
